@@ -237,10 +237,17 @@ func ReadFixedString(buf *bytes.Buffer, fixedLen int) (string, error) {
 func ReadFixedStringTrimPadding(buf *bytes.Buffer, fixedLen int, padChar rune, padLeft bool) (string, error) {
 	strBytes := make([]byte, fixedLen)
 	_, err := io.ReadFull(buf, strBytes)
+	pad := byte(padChar)
 	if padLeft {
-		return string(bytes.TrimLeft(strBytes, string(padChar))), err
+		for len(strBytes) > 0 && strBytes[0] == pad {
+			strBytes = strBytes[1:]
+		}
+		return string(strBytes), err
 	}
-	return string(bytes.TrimRight(strBytes, string(padChar))), err
+	for len(strBytes) > 0 && strBytes[len(strBytes)-1] == pad {
+		strBytes = strBytes[:len(strBytes)-1]
+	}
+	return string(strBytes), err
 }
 
 func ReadFixedStringList[T constraints.Unsigned](buf *bytes.Buffer, fixedLen int) ([]string, error) {
